@@ -74,4 +74,39 @@ theorem point_measurement_reciprocity (rd : SolveReq ℝ) (hg : GeomOK (geom RC 
   simp only [solveOk, Tab1.get_tab, hgf, RC_re]
   exact h2.symm
 
+/-- … and for the concentration above background:
+`point_measurement(srf_flx, conc_footprint[k] − bg) = conc_dispersion[k][jm, im] − bg` -/
+theorem point_measurement_reciprocity_conc (rd : SolveReq ℝ) (hg : GeomOK (geom RC rd)) (hp : rd.precision = .double)
+    (hden : DenOK rd) (hfp : rd.footprint = false) (hxm : rd.xm = 0) (hym : rd.ym = 0) (im jm k : ℕ)
+    (hdx : (geom RC rd).dx ≠ 0) (hdy : (geom RC rd).dy ≠ 0) :
+    let g := geom RC rd
+    let rf : SolveReq ℝ := { rd with footprint := true, xm := im * g.dx, ym := jm * g.dy }
+    pointMeasurement rd.ny rd.nx rd.q (fun j i => (solveOk RC rf).conc k j i - rd.bg) = (solveOk RC rd).conc k jm im - rd.bg := by
+  intro g rf
+  have hgf : geom RC rf = g := rfl
+  have h := footprint_reciprocity_conc rd hg hp hden hfp hxm hym im jm (rd.levels.toArray.getD k 0) hdx hdy
+  simp only at h
+  -- real parts
+  have hre : ∀ J I, (padSrc RC rd g J I).im = 0 := by
+    intro J I; unfold padSrc; split <;> simp [RC_ofReal]
+  have hreal : ∑ J ∈ Finset.range g.nye, ∑ I ∈ Finset.range g.nxe,
+      (padSrc RC rd g J I).re * (((fieldsAt RC rf g (srcSpectrum RC rf g).get (rd.levels.toArray.getD k 0)).1.get J I).re - rd.bg)
+      = ((fieldsAt RC rd g (srcSpectrum RC rd g).get (rd.levels.toArray.getD k 0)).1.get (jm + g.py) (im + g.px)).re - rd.bg := by
+    have h2 := congrArg Complex.re h
+    rw [Complex.re_sum] at h2
+    rw [show (((fieldsAt RC rd g (srcSpectrum RC rd g).get (rd.levels.toArray.getD k 0)).1.get (jm + g.py) (im + g.px)) - (rd.bg : ℂ)).re
+        = ((fieldsAt RC rd g (srcSpectrum RC rd g).get (rd.levels.toArray.getD k 0)).1.get (jm + g.py) (im + g.px)).re - rd.bg by simp] at h2
+    rw [← h2]
+    apply Finset.sum_congr rfl; intro J _
+    rw [Complex.re_sum]
+    apply Finset.sum_congr rfl; intro I _
+    rw [Complex.mul_re, hre J I, zero_mul, sub_zero]
+    simp only [Complex.sub_re, Complex.ofReal_re]
+    rfl
+  have h3 := padded_sum_eq_user_sum rd
+    (fun J I => ((fieldsAt RC rf g (srcSpectrum RC rf g).get (rd.levels.toArray.getD k 0)).1.get J I).re - rd.bg)
+  rw [hreal] at h3
+  simp only [solveOk, Tab1.get_tab, hgf, RC_re]
+  exact h3.symm
+
 end BLDFM.C02
